@@ -58,7 +58,8 @@ theorem C18_inplace_other_tx_untouched (h : Heap) (tx other : MsgTx) (swI swO : 
     object and every pointer array that existed before the call is unchanged (the old heap is a prefix of the new
     one), so *every* transaction object of the old heap — the argument included — denotes what it denoted before; the
     returned transaction lives entirely in memory allocated by the call (array ids and object pointers beyond the old
-    heap), so no later write through the result can reach the original either. -/
+    heap), so no later write through the result's pointer arrays, objects or scripts can reach the original either
+    (token commitments, which `MsgTx.Copy` shares, are outside the model: see `Model/TxSortHeap.lean`). -/
 theorem C18_sort_leaves_original_untouched (h : Heap) (tx : MsgTx) (swI swO : List (Nat × Nat))
     (hrI : InRange (copyTx h tx).2.tin swI) (hrO : InRange (copyTx h tx).2.tout swO) :
     let r := sortH h tx swI swO
@@ -199,7 +200,8 @@ theorem C18_inplace_same_order_as_sort (h : Heap) (tx : MsgTx) (sI sO cI cO : Li
          uI _ _ (p3.trans mI.symm) s3 sI', uO _ _ (p4.trans mO.symm) s4 sO'⟩
 
 
-/-- **`InPlaceSort` as Go runs it (insertion sort, what `sort.Sort` does for short slices) yields exactly the
+/-- **`InPlaceSort` run with the insertion-sort schedule (what `sort.Sort` executes for slices of at most 12 elements;
+    for longer ones Go runs pdqsort, whose result is covered by `C18_inplace_same_order_as_sort`) yields exactly the
     value-level model's sorted transaction** — the heap-level execution refines `Model.TxSort.SortTx`; all ordering
     theorems of `Props/C18.lean` (`C18_sort`, `C18_sort_be`, `C18_idempotent`, …) therefore hold of the heap run. -/
 theorem C18_inplace_go_refines (h : Heap) (tx : MsgTx)
